@@ -1,11 +1,13 @@
 (* CorrC20.v — correspondence and property evaluation for C20 (run on harness output). *)
-From Ucfg Require Export Base ParseInt Consts Field Tree PathOps.
+From Ucfg Require Export Base ParseInt Consts Field Tree PathOps CorrC02.
 
 Inductive case :=
 | CParseInt (s : string) (signed unsigned : option Z)
 | CPath (input sep : string) (maxIdx : Z) (numKeys escape : bool) (observed : list field)
 | CPathIdx (name : string) (idx : Z) (sep : string) (maxIdx : Z) (numKeys : bool) (observed : list field)
-| CTag (tag : string) (maxIdx : Z) (numKeys : bool) (cfg : value) (observed : option string).
+| CTag (tag : string) (maxIdx : Z) (numKeys : bool) (cfg : value) (observed : option string)
+| CDyn20 (c : CorrC02.case).
+    (* names inside references, read under EnableNumKeys / EscapePath: the C02 machinery *)
     (* Unpack of cfg into struct{F string `config:"<tag>"`} under MaxIdx / EnableNumKeys: what F
        holds afterwards (None = Unpack failed).  The tag is read under the options of THIS call *)
 
@@ -56,6 +58,7 @@ Definition prop_holds (c : case) : bool :=
           | _ => None end
         end in
     match want with Some s => opt_eqb String.eqb obs (Some s) | None => true end
+  | CDyn20 d => CorrC02.prop_holds d
   end.
 
 Definition model_agrees (c : case) : bool :=
@@ -72,6 +75,7 @@ Definition model_agrees (c : case) : bool :=
     | Ok (Some (_, VNil)) | Ok None | Err EMissing _ => opt_eqb String.eqb obs (Some "")
     | _ => true
     end
+  | CDyn20 d => CorrC02.skipped d || CorrC02.model_agrees d
   end.
 
 (* known-finding signatures (0 = none) *)
